@@ -73,6 +73,8 @@ def text_for(sit):
         return BASE + OWN[sit["own"]]
     if i in ("badfname", "nlfname"):
         return BASE + OWN[sit["own"]]
+    if i == "nonascii":       # valid UTF-8 beyond ASCII in a name: the bytes are what is hashed, whatever the locale
+        return (BASE + OWN[sit["own"]]).replace('task a "a"', 'task a "Caf\u00e9 \u2013 \u6771\u4eac"')
     if i == "partial":
         return BASE + PARTIAL + OWN[sit["own"]]
     if i == "crlf":
@@ -207,6 +209,10 @@ def invoke(scr, sit, cwd, tmpdir, text=None, timeout=300, strace=None, hashseed=
     env = env_for(scr, hooks=False, extra={"TMPDIR": tmpdir})
     if hashseed is not None:
         env["PYTHONHASHSEED"] = hashseed
+    if sit.get("env") == "latin1io":
+        env["PYTHONIOENCODING"] = "latin-1"
+    elif sit.get("env") == "clocale":
+        env.update({"LC_ALL": "C", "LANG": "C", "PYTHONUTF8": "0", "PYTHONCOERCECLOCALE": "0"})
     if sit.get("out") == "brokenpipe":
         w = dead_pipe()
         try:
@@ -342,7 +348,7 @@ def check_c19(prop, tier, replay=None):
             if True:
                 run.evaluated()
                 run.nontrivial(phash(sit))
-                key = "%s-%s-%s-%s-%s-seed%s" % (sit["input"], sit["channel"], sit["format"], sit["own"], sit["out"], hs)
+                key = "%s-%s-%s-%s-%s%s-seed%s" % (sit["input"], sit["channel"], sit["format"], sit["own"], sit["out"], ("-" + sit["env"]) if sit.get("env") else "", hs)
                 problems = []
                 ok_exits = set(t["okExits"])         # decided by the spec (AllowedExit)
                 if obs["exit"] not in ok_exits:
